@@ -78,6 +78,41 @@ class Check:
             raise AnalysisError("positive control %s did not fire: the rule is blind" % name)
 
 
+class Relabel:
+    """reports the instances of another property's rule under a rule id of this property (the originating rule id stays in the site key).
+    mapping: {originating rule id: rule id here}; instances of other rules are dropped; keep(key) filters by site key."""
+
+    def __init__(self, chk, mapping, keep=None):
+        self.chk, self.mapping, self.keep = chk, mapping, keep or (lambda key: True)
+        self.analysed = chk.analysed
+        self.violations = chk.violations
+        self.notes = chk.notes
+
+    def rule(self, *a):
+        pass
+
+    def ob(self, rule, key, how="ok", sample=None):
+        if rule in self.mapping and self.keep(key):
+            self.chk.ob(self.mapping[rule], "%s|%s" % (rule, key), how)
+
+    def violation(self, rule, key, msg, *a, **k):
+        if rule in self.mapping and self.keep(key):
+            self.chk.violation(self.mapping[rule], "%s|%s" % (rule, key), msg, *a, **k)
+
+    def undecide(self, rule, key, why):
+        if rule in self.mapping:
+            self.chk.undecide(self.mapping[rule], key, why)
+
+    def floor(self, *a):
+        self.chk.floor(*a)
+
+    def count(self, *a, **k):
+        pass
+
+    def control(self, *a, **k):
+        pass
+
+
 def load_known():
     try:
         with open(KNOWN) as fh:
